@@ -687,6 +687,7 @@ func (r *runningStep) closedEarly(stageToMarkUnresolvable StageID, priorStageFai
 
 	err := fmt.Errorf("step foreach %s closed due to workflow termination", r.runID)
 	r.markStageFailures(stageToMarkUnresolvable, err)
+	r.markNotFailable(err)
 }
 
 func (r *runningStep) transitionToDisabled() {
@@ -710,11 +711,17 @@ func (r *runningStep) transitionToDisabled() {
 	err := fmt.Errorf("step foreach %s disabled", r.runID)
 	r.markStageFailures(StageIDExecute, err)
 	r.markNotClosable(err)
+	r.markNotFailable(err)
 }
 
 // Closable is the graceful case, so this is necessary if it crashes.
 func (r *runningStep) markNotClosable(err error) {
 	r.stageChangeHandler.OnStepStageFailure(r, string(StageIDClosed), &r.wg, err)
+}
+
+// A step that has ended another way will not report failed items anymore.
+func (r *runningStep) markNotFailable(err error) {
+	r.stageChangeHandler.OnStepStageFailure(r, string(StageIDFailed), &r.wg, err)
 }
 
 // TransitionStage transitions the running step to the specified stage, and the state running.
@@ -878,6 +885,8 @@ func (r *runningStep) processInput(input executeInput) {
 	previousStage = string(r.currentStage)
 	r.lock.Unlock()
 	r.stageChangeHandler.OnStepComplete(r, previousStage, &outputID, &outputData, &r.wg)
+	// The step has reported its result: it cannot be closed anymore.
+	r.markNotClosable(fmt.Errorf("step foreach %s finished", r.runID))
 }
 
 // returns true if there is an error.
